@@ -84,10 +84,19 @@ def WPrhs : E → Bool
 
 /-! ## combine-startswith-endswith / combine-isinstance-issubclass -/
 
-/-- `combine_args`: elements of both calls, later duplicates dropped -/
+/-- a pattern written as a string literal (the only elements `combine_args` can tell apart: it compares
+`evaluated_value`, which names and other expressions do not have) -/
+def isLit (s : String) : Bool :=
+  match s.toList with
+  | '\'' :: _ => true
+  | '"' :: _ => true
+  | _ => false
+
+/-- `combine_args`: elements of both calls; a *literal* that has been seen already is dropped, anything
+else (a name, an attribute, a call) is kept even when it repeats -/
 def dedup : List String → List String
   | [] => []
-  | x :: xs => x :: (dedup xs).filter (· != x)
+  | x :: xs => x :: (dedup xs).filter (fun y => !(isLit x && y == x))
 
 /-- `combine_calls(c₁, c₂)`: a fresh `Call` (no parentheses of its own) -/
 def combineCalls (r : String) (p₁ p₂ : List String) : E := call r (dedup (p₁ ++ p₂)) false
